@@ -157,6 +157,8 @@ def field_variants(cls, typ, quant, name):
               ('sequence-with-star', lambda: P(ast.MatchSequence(patterns=[cap('c3'), P(ast.MatchStar(name='rest'))]))),
               ('star-wildcard', lambda: P(ast.MatchSequence(patterns=[P(ast.MatchStar(name=None))]))),
               ('mapping-rest', lambda: P(ast.MatchMapping(keys=[opaque_expr('k')], patterns=[cap('c4')], rest='kw'))),
+              ('mapping-rest-only', lambda: P(ast.MatchMapping(keys=[], patterns=[], rest='kw2'))),
+              ('mapping-empty', lambda: P(ast.MatchMapping(keys=[], patterns=[], rest=None))),
               ('class', lambda: P(ast.MatchClass(cls=opaque_expr('cls'), patterns=[cap('c5')], kwd_attrs=['a'], kwd_patterns=[cap('c6')]))),
               ('or', lambda: P(ast.MatchOr(patterns=[cap('c7'), P(ast.MatchAs(pattern=P(ast.MatchValue(value=opaque_expr('v'))), name='c7'))])))]
         if quant == '*' and cls is ast.MatchOr:
